@@ -19,7 +19,7 @@
    insert along an axis is outside the property's text (it speaks of flat positions) and is checked as a model/code
    correspondence only. *)
 From Coq Require Import Sorted.
-From ArrRs Require Import Index Axis Axis_proofs Broadcast_proofs Reduce Along_proofs Edit Edit_proofs Delete_proofs Broadcast Insert_proofs Repeat_proofs Repeat_flat.
+From ArrRs Require Import Index Axis Axis_proofs Broadcast_proofs Reduce Along_proofs Edit Edit_proofs Delete_proofs Broadcast Insert_proofs Repeat_proofs Repeat_flat Join_refuse.
 
 Theorem C13_trim : forall (A : Type) (p : A -> bool) l,
   let t := drop_while p (rev (drop_while p (rev l))) in
@@ -95,6 +95,10 @@ Theorem C13_insert_flat : forall (T : Type) (d : T) (a values : arr T) idx pr,
   Forall (fun p => fst p <= len a) P ->
   insert_flat d a idx values = Ok (mk (insert_spec d (elems a) P) [length (insert_spec d (elems a) P)]).
 Proof. exact @insert_flat_spec. Qed.
+
+Theorem C13_insert_flat_refuses : forall (T : Type) (d : T) (a values : arr T) idx i,
+  In i idx -> len a < i -> insert_flat d a idx values = Err EOob.
+Proof. exact @insert_flat_refuse. Qed.
 
 Theorem C13_repeat_flat_scalar : forall (T : Type) (dflt : T) (a : arr T) k,
   wf a -> shape a <> [] -> pos_shape (shape a) ->
